@@ -53,8 +53,9 @@ func c13Arg(t *rapid.T) string {
 
 // C13Frame is one thing written to the socket.
 type C13Frame struct {
-	Argv kit.Argv `json:"argv,omitempty"` // a well-formed command (array of bulk strings) ...
-	Raw  kit.S    `json:"raw,omitempty"`  // ... or raw bytes
+	Argv  kit.Argv `json:"argv,omitempty"`  // a well-formed command (array of bulk strings) ...
+	Raw   kit.S    `json:"raw,omitempty"`   // ... or raw bytes
+	Split int      `json:"split,omitempty"` // well-formed command written in two pieces, cut at this per-mille position (0 = one write)
 }
 
 type C13Case struct {
@@ -191,11 +192,18 @@ func c13Template(t *rapid.T) kit.Argv {
 func c13Gen(t *rapid.T) C13Case {
 	var c C13Case
 	for n := rapid.IntRange(1, 6).Draw(t, "frames"); n > 0; n-- {
-		switch weighted(t, "kind", []int{6, 2, 2, 2, 12}) {
+		split := 0
+		if rapid.IntRange(0, 4).Draw(t, "split") == 0 {
+			split = rapid.IntRange(1, 999).Draw(t, "splitat")
+		}
+		switch weighted(t, "kind", []int{6, 2, 2, 2, 12, 1}) {
+		case 5:
+			// a value larger than the server's 8 KiB read buffer
+			c.Frames = append(c.Frames, C13Frame{Argv: kit.A(pick(t, "bigcmd", "SET", "APPEND", "LPUSH", "SADD", "ECHO"), "kbig", strings.Repeat("v", pick(t, "biglen", 8192, 8193, 9000, 20000))), Split: split})
 		case 4:
-			c.Frames = append(c.Frames, C13Frame{Argv: c13Template(t)})
+			c.Frames = append(c.Frames, C13Frame{Argv: c13Template(t), Split: split})
 		case 0:
-			c.Frames = append(c.Frames, C13Frame{Argv: c13Structured(t)})
+			c.Frames = append(c.Frames, C13Frame{Argv: c13Structured(t), Split: split})
 		case 1:
 			c.Frames = append(c.Frames, C13Frame{Raw: kit.S(c13NonBulk(t))})
 		case 2:
@@ -454,7 +462,20 @@ func c13Run(c C13Case, st *kit.Stats) error {
 		if name == "client" && len(argv) > 1 && strings.EqualFold(argv[1], "kill") {
 			killedOthers = true
 		}
-		v, err := conn.DoT(5*time.Second, argv...)
+		var v kit.Value
+		var err error
+		if f.Split > 0 {
+			// the same well-formed command, arriving in two TCP segments
+			enc := kit.EncodeCmd(argv...)
+			cut := 1 + (len(enc)-2)*f.Split/1000
+			conn.Write(enc[:cut])
+			time.Sleep(2 * time.Millisecond)
+			conn.Write(enc[cut:])
+			v, err = conn.Read(5 * time.Second)
+			st.Class("command-in-two-segments")
+		} else {
+			v, err = conn.DoT(5*time.Second, argv...)
+		}
 		if err != nil {
 			suspicious = true
 			if e := died(fmt.Sprintf("on command %d %s", i, f.Argv)); e != nil {
